@@ -136,7 +136,8 @@ pub fn record(a: &Args) {
     mirrors.truncate(if th { 120 } else { 8 });
     small.extend(mirrors);
     let mut extra: Vec<&str> = vec!["T(3,4)", "T(3,5)", "T(4,5)", "T(3,4)+3_1", "3_1+4_1", "3_1+m3_1", "L2a1+5_2"];
-    let big: Vec<&str> = if th { vec!["T(5,6)", "T(5,6)+3_1", "T(5,6)+4_1", "T(5,6)+m5_1", "T(5,6)+L2a1"] } else { vec![] };
+    // quick tier: one of the two inputs of the known finding, with the two integer routes only (a few seconds)
+    let big: Vec<&str> = if th { vec!["T(5,6)", "T(5,6)+3_1", "T(5,6)+4_1", "T(5,6)+m5_1", "T(5,6)+L2a1"] } else { vec!["T(5,6)+4_1"] };
     if th { let more: Vec<String> = names.iter().filter(|n| size(n) == 11).cloned().collect::<Vec<_>>().choose_multiple(&mut rng, 60).cloned().collect(); small.extend(more); }
     let mut all: Vec<(String, bool)> = small.into_iter().map(|n| (n, false)).collect();
     all.extend(extra.drain(..).map(|n| (n.to_string(), false)));
@@ -151,7 +152,8 @@ pub fn record(a: &Args) {
         max_n = max_n.max(n);
         links += 1;
         t.emit(&json!({"op": "link", "name": name, "n": n, "comps": l.components().len(), "res": "ok"}));
-        let jobs = if *is_big { jobs_big() } else { jobs_full() };
+        let jobs = if *is_big && !th && only.is_none() { vec![Job { ring: "Z64", route: "pieces", red: false }, Job { ring: "Z64", route: "total", red: false }] }
+                   else if *is_big { jobs_big() } else { jobs_full() };
         let res = tables_of(&l, &jobs, if *is_big { 5 } else { 1 });
         let mut tors_here = false;
         let ref_overflow: Vec<bool> = [false, true].iter().map(|red| jobs.iter().zip(res.iter()).any(|(j, r)| j.ring == "Z64" && j.route == "pieces" && j.red == *red && matches!(r, Err(m) if m.contains("overflow")))).collect();
